@@ -82,7 +82,12 @@ TARGET_KINDS = {
     "allofchild": {"allOf": [{"$ref": REF + "Leaf"}, {"type": "object", "properties": {"y": {"type": "integer"}}}]},
     "discbase": {"type": "object", "properties": {"kind": {"type": "string"}}, "required": ["kind"], "discriminator": {"propertyName": "kind", "mapping": {"l": REF + "DLeaf"}}},
 }
-POSITIONS = ["property", "item", "mapvalue", "oneof", "anyof", "allof", "nested", "mapping", "opparam", "pathparam", "reqbody", "respbody"]
+POSITIONS = ["property", "item", "mapvalue", "oneof", "anyof", "allof", "nested", "mapping", "opparam", "pathparam", "reqbody", "respbody", "respbody2", "inlinedup", "headerparam", "nesteditem"]
+
+
+def copy_schema(s):
+    import copy
+    return copy.deepcopy(s)
 
 
 def position_spec(position, tkind):
@@ -118,8 +123,18 @@ def position_spec(position, tkind):
         op["requestBody"] = {"content": {"application/json": {"schema": T}}}
     elif position == "respbody":
         op["responses"]["201"] = {"description": "c", "content": {"application/json": {"schema": T}}}
+    elif position == "respbody2":
+        # a SECOND media type of the same response, with a schema reachable from nowhere else
+        op["responses"]["200"]["content"]["text/plain"] = {"schema": T}
+    elif position == "headerparam":
+        op["parameters"] = [{"name": "X-F", "in": "header", "schema": T}]
+    elif position == "nesteditem":
+        root["properties"]["p"] = {"type": "array", "items": {"type": "object", "properties": {"q": {"type": "array", "items": T}}}}
+    elif position == "inlinedup":
+        # Root.p is an INLINE object structurally identical to Tgt; Tgt itself is used only by the OTHER operation
+        root["properties"]["p"] = copy_schema(TARGET_KINDS[tkind])
     schemas["Root"] = root
-    other = {"get": {"operationId": "op1", "responses": {"200": {"description": "ok", "content": {"application/json": {"schema": {"$ref": REF + "Leaf2"}}}}}}}
+    other = {"get": {"operationId": "op1", "responses": {"200": {"description": "ok", "content": {"application/json": {"schema": {"$ref": REF + ("Tgt" if position == "inlinedup" else "Leaf2")}}}}}}}
     return {"openapi": "3.1.0", "info": {"title": "g", "version": "1"}, "paths": {"/r": item, "/other": other}, "components": {"schemas": schemas}}
 
 
